@@ -170,6 +170,38 @@ def task_profile(pr, repo):
     pr.explore(ex, thunk, PF)
 
 
+def task_profile_rows(pr, repo):
+    """PR rows on one- and two-point grids (few paths): the pH stored in a row IS the grid value and dG is evaluated at it."""
+    fi = repo.func(PF)
+    MC = repo.cls('propka.molecular_container.MolecularContainer')
+    DG = z3.Function('DG_', z3.RealSort(), z3.RealSort())
+    for n in (1, 2):
+        ex = Executor(repo)
+        vals = [R('q%d' % i) for i in range(n)]
+        ex.contracts[MG] = lambda ex, ctx, fi_, a, k, so, vals=vals: list(vals)
+        seen = []
+
+        def thunk(ex, ctx, vals=vals, n=n):
+            conf = record('conf', None)
+
+            def cfe(ex_, ph=None, reference=None):
+                seen.append(ph)
+                return Sym(DG(to_z3_num(ph, True)))
+            conf.attrs['calculate_folding_energy'] = Builtin('cfe', cfe)
+            mol = record('mol', MC, conformations={'AVR': conf})
+            for i in range(n - 1):
+                ctx.assume(vals[i] < vals[i + 1])
+            del seen[:]
+            profile = ex.call_function(fi, [], {'conformation': 'AVR', 'reference': 'neutral',
+                                                'grid': (R('g0'), R('g1'), R('g2'))}, self_obj=mol)[0]
+            ok = len(profile) == n
+            conj = [ok]
+            if ok:
+                conj += [And(profile[i][0] == vals[i], profile[i][1] == Sym(DG(vals[i].e))) for i in range(n)]
+            ctx.oblige('PR[%d-point grid]: each row is (grid pH exactly as produced by the grid, dG evaluated at that pH)' % n, And(*conj))
+        pr.explore(ex, thunk, PF + ' rows %d' % n)
+
+
 def task_grid(pr, repo):
     ex = Executor(repo)
     fi = repo.func(MG)
@@ -342,7 +374,7 @@ def run(pr, repo):
                      force=(pr.tier == 'thorough'))
     from . import C09
     # 'the same charge curves that are reported': the charge sums range over exactly the titratable groups (C09-CC)
-    tasks = [(task_group, ()), (task_container, ()), (task_profile, ()), (task_grid, ()), (C09.task_container_charge, ()),
+    tasks = [(task_group, ()), (task_container, ()), (task_profile, ()), (task_profile_rows, ()), (task_grid, ()), (C09.task_container_charge, ()),
              (task_write_pka, ())]
     steps = [(1.0, 0.0), (2.0, 0.0), (0.5, 0.5), (1.5, 1.0)] if pr.tier == 'quick' else \
         [(1.0, 0.0), (2.0, 0.0), (0.5, 0.5), (1.5, 1.0), (0.1, 0.6), (0.25, 0.0), (3.0, 2.0), (0.7, 0.0)]
